@@ -68,6 +68,28 @@ def fmt(a):
     return "{" + ", ".join(sorted(("" if p else "not ") + n for n, p in a)) + "}"
 
 
+ADVANCING = re.compile(r"self\.decoder\.(?!offset\(\)|limit_reached\(\)|has_limit\(\))\w+\(|self\.parse_\w+\(")
+
+
+def resolve_offset_local(f, arg_text, site_text):
+    """If arg_text names a local bound once by `let x = <offset expression>;` and no decoder-advancing call lies between the
+    binding and the site (in source order), return the initialiser's text; else arg_text."""
+    if not re.match(r"^\w+$", arg_text):
+        return arg_text
+    body = show(f["body"])
+    binds = re.findall(r"let %s = ([^;]*);" % re.escape(arg_text), body)
+    if len(binds) != 1:
+        return arg_text
+    i = body.find("let %s = " % arg_text)
+    j = body.find(site_text, i)
+    if i < 0 or j < 0:
+        return arg_text
+    between = body[i + len("let %s = %s;" % (arg_text, binds[0])):j]
+    if ADVANCING.search(between):
+        return arg_text + " (bound before a decoder read)"
+    return binds[0]
+
+
 def result_sites(f):
     """every Err(State::V(..)) / Ok(..) result expression with its path conditions"""
     def pred(n):
@@ -152,6 +174,7 @@ def run(ctx, chk):
     for kind, v, args, conds in rs:
         if kind == "Err" and v in ("WordCountZero", "OpcodeUnknown", "OperandExceeded"):
             a = [show(x) for x in args]
+            a[0] = resolve_offset_local(f, a[0], "State::%s(" % v)
             off_ok = (a[0] in ("(self.decoder.offset() - WORD_NUM_BYTES)", "(self.decoder.offset() - 4)")) if v != "OperandExceeded" else a[0] == "self.decoder.offset()"
             chk.check(R2, len(a) >= 2 and off_ok and a[1] == "self.inst_index" and (v != "OpcodeUnknown" or len(a) == 3),
                       "payload:" + v, "error payload is %s" % a, W)
@@ -260,6 +283,7 @@ def run(ctx, chk):
                 if v in ("WordCountZero", "OpcodeUnknown", "OperandExpected", "OperandExceeded", "TypeUnsupported", "SpecConstantOpIntegerIncorrect"):
                     npos += 1
                     a = [show(x) for x in n[2]]
+                    a[0] = resolve_offset_local(ff, a[0], "State::%s(" % v)
                     ok = a[0] in ("self.decoder.offset()", "(self.decoder.offset() - WORD_NUM_BYTES)", "(self.decoder.offset() - 4)") and a[1] == "self.inst_index"
                     chk.check(R6, ok, "%s:%s#%d" % (fname, v, npos), "payload %s" % a, raw.where(fname, "Parser"))
     chk.floor(R6, "positional error sites", npos, 7)
